@@ -49,6 +49,12 @@ alt('reg_b', 1, lambda c: {'type': 'register', 'register': 'b', 'bytecode': {'va
     lambda cat: (True, None) if cat[0] == 'reg' and cat[1] == 'b' else None)
 alt('numeric', 2, lambda c: {'type': 'numeric', 'bytecode': {'value': c, 'size': 4}, 'argument': _arg8()},
     lambda cat: (True, cat[2]) if cat[0] in ('num', 'key') else None)
+alt('numeric_va', 2, lambda c: {'type': 'numeric', 'bytecode': {'value': c, 'size': 4},
+                                 'argument': {'size': 8, 'byte_align': True, 'valid_address': True}},
+    lambda cat: (True, cat[2]) if cat[0] in ('num', 'key') else None)
+alt('ind_num_va', 0, lambda c: {'type': 'indirect_numeric', 'bytecode': {'value': c, 'size': 4},
+                                 'argument': {'size': 8, 'byte_align': True, 'valid_address': True}},
+    lambda cat: (True, cat[2]) if cat[0] == 'ind_num' else None)
 alt('ind_num', 0, lambda c: {'type': 'indirect_numeric', 'bytecode': {'value': c, 'size': 4}, 'argument': _arg8()},
     lambda cat: (True, cat[2]) if cat[0] == 'ind_num' else None)
 alt('def_num', 0, lambda c: {'type': 'deferred_numeric', 'bytecode': {'value': c, 'size': 4}, 'argument': _arg8()},
@@ -70,7 +76,8 @@ alt('relative', 2, lambda c: {'type': 'relative_address', 'bytecode': {'value': 
 alt('numbc', 2, lambda c: {'type': 'numeric_bytecode', 'bytecode': {'size': 4, 'min': 0, 'max': 15}},
     lambda cat: ('VALUE', None) if cat[0] in ('num', 'key') else None)
 
-NUMERIC_LIKE = {'numeric', 'address', 'numbc'}
+NUMERIC_LIKE = {'numeric', 'numeric_va', 'address', 'numbc'}
+BRACKET_NUMERIC = {'ind_num', 'ind_num_va'}
 ALT_NAMES = list(ALTS)
 
 
@@ -78,7 +85,7 @@ def subsets(maxsize):
     out = []
     for r in range(1, maxsize + 1):
         for combo in itertools.combinations(ALT_NAMES, r):
-            if len(NUMERIC_LIKE & set(combo)) > 1:
+            if len(NUMERIC_LIKE & set(combo)) > 1 or len(BRACKET_NUMERIC & set(combo)) > 1:
                 continue            # the statement does not order numeric-like alternatives among themselves
             out.append(combo)
     return out
@@ -168,7 +175,7 @@ def build_instruction(mn, variants):
 def meta(tier):
     q = tier == 'quick'
     return {
-        'rule': 'one-slot: every ordered pair of variants whose single slot is any subset of size <=2 (thorough 3) of the 11 alternative '
+        'rule': 'one-slot: every ordered pair of variants whose single slot is any subset of size <=2 (thorough 3) of the 13 alternative '
                 'kinds (at most one numeric-like kind per set) x all 18 operand texts x mnemonic case; two-slot: variants over a '
                 'reduced subset list, with and without an explicitly listed combination and a disallowed pair, x pairs of 8 texts; '
                 'three variants over a reduced list; expected = opcode of the first accepting variant + code of the chosen '
@@ -263,7 +270,7 @@ def single(acc, isa, header, stmt, data):
 
 def classify(variants, cats, got):
     if got is None:
-        if any(c[0] == 'reg' for c in cats) and any(any(n in ('numeric', 'address', 'numbc') for n, _ in s) for v in variants for s in v['sets']):
+        if any(c[0] == 'reg' for c in cats) and any(any(n in NUMERIC_LIKE for n, _ in s) for v in variants for s in v['sets']):
             return 'register-not-numeric'
         return 'no-variant-rejected'
     for vi, v in enumerate(variants):
@@ -302,9 +309,9 @@ def shard(acc, tier, idx, n):
         run_group(acc, group, one_texts, upper=True)
     # ---- two slots: sets / specific / disallowed ---------------------------------------------------------------
     red = [('reg_a',), ('reg_a', 'reg_b'), ('numeric',), ('reg_a', 'numeric'), ('enum_foo', 'numeric'), ('ind_num', 'ind_reg_a'),
-           ('idx_reg_a', 'reg_a'), ('numbc', 'reg_b')]
+           ('idx_reg_a', 'reg_a'), ('numbc', 'reg_b'), ('numeric_va',)]
     if q:
-        red = [red[1], red[3], red[4], red[5], red[6], red[7]]
+        red = [red[1], red[3], red[4], red[5], red[6], red[8]]
     else:
         red += [('address', 'enum_foo', 'reg_b'), ('def_num', 'ind_num', 'numeric')]
     two_texts = list(itertools.product(TEXTS_Q2, repeat=2))
